@@ -190,6 +190,8 @@ func hsOf(tx *caseTx, idx int, code []byte, amount uint64, ht byte, fork bool) [
 
 // scenario builder state
 type scen struct {
+	carrySats   *uint64 // set by the commit scenarios: what the signed tx object carries
+	carryScript []byte
 	rng   *rand.Rand
 	keys  []keyPair
 	notes []sigNote
@@ -347,6 +349,10 @@ func sigsCmd(args []string) error {
 			sx["keys"] = []Ev{}
 		}
 		c := vmCase{ID: id, Unlock: ints(unlock), Lock: ints(lock), Flags: uint32(fl), Src: src, Tx: tx, TxIdx: idx, Amount: amount, Sx: sx}
+		if s.carrySats != nil {
+			v := *s.carrySats
+			c.CarrySats, c.CarryScript = &v, ints(s.carryScript)
+		}
 		b, _ := json.Marshal(c)
 		f.Write(append(b, '\n'))
 		s.notes, s.knote, s.seenK = nil, nil, map[string]bool{}
@@ -481,12 +487,20 @@ func sigsCmd(args []string) error {
 		if rng.Intn(8) == 0 {
 			unlock = []byte{0x51} // non-null dummy
 		}
+		mixed := rng.Intn(3) == 0 // signatures of one multisig may use different hash types
 		for j := 0; j < m; j++ {
 			cl := "valid"
 			if mode >= 3 && rng.Intn(2) == 0 {
 				cl = classes[rng.Intn(len(classes))]
 			}
-			unlock = append(unlock, pushBytes(s.sign(cl, ks[order[j]], tx, idx, scode, amount, ht, isFork(fl, ht)))...)
+			htj, scj := ht, scode
+			if mixed {
+				htj = (ht & 0x40) | stdHashTypes[rng.Intn(len(stdHashTypes))]
+				if rng.Intn(2) == 0 {
+					htj = ht ^ 0x80 // same base type, ANYONECANPAY flipped
+				}
+			}
+			unlock = append(unlock, pushBytes(s.sign(cl, ks[order[j]], tx, idx, scj, amount, htj, isFork(fl, htj)))...)
 		}
 		emit("multi", "multisig", unlock, lock, fl, tx, idx, amount)
 	}
@@ -564,6 +578,13 @@ func commitScenarios(s *scen, rng *rand.Rand, n int, emit func(id, src string, u
 			s.notes = append(s.notes, sigNote{Bytes: ints(sig), Signer: k.id, Pre: ints(myPreimage(tx, idx, []byte(*lock), amount, ht, fork)), Hs: hsOf(tx, idx, []byte(*lock), amount, ht, fork)})
 		}
 		note(tx, idx, *lock, amount)
+		// half of the scenarios run on a transaction object that still carries the signing-time
+		// value and script on the checked input (as one that was just signed does)
+		s.carrySats, s.carryScript = nil, nil
+		if it%2 == 1 || rng.Intn(2) == 0 {
+			a0 := amount
+			s.carrySats, s.carryScript = &a0, append([]byte{}, *lock...)
+		}
 		emit("base", "commit-base", unlock, *lock, fl, tx, idx, amount)
 		// mutations
 		type mut struct {
